@@ -243,6 +243,9 @@ func (fv *FV) applyContract(fr *Frame, st *State, c *Contract, args []Value, arg
 	}
 	pre := st.clone()
 	locs := env.evalLocs(c.Modifies)
+	penv := *env
+	penv.st = pre
+	locs = append(locs, penv.evalEach(c.ModEach)...)
 	for _, m := range locs {
 		fv.frameCheckLoc(st, m, x, calleeName, ord)
 	}
@@ -276,12 +279,32 @@ func (fv *FV) applyContract(fr *Frame, st *State, c *Contract, args []Value, arg
 			st.assume(Or(Eq(v.Arr, NilRef), Ge(RootID(v.Arr), pre.wm)))
 		}
 	}
+	fv.applyGhostDefs(post, st, c.GhostDefs)
 	for _, e := range c.Ensures {
 		post.assume(st, e)
 	}
 	for _, e := range c.Assumed {
 		post.assume(st, e)
 		fv.trusted[c.Pkg+"::"+c.Key+" [assumed clause: "+e.String()+"]"] = true
+	}
+	// intermediate assertions of the function under verification (cut points)
+	if fr.top && fv.c != nil {
+		for i, ca := range fv.c.Asserts {
+			if ca.Ord != ord || !(ca.Callee == calleeName || strings.HasSuffix(calleeName, ")."+ca.Callee) || strings.HasSuffix(calleeName, "."+ca.Callee)) {
+				continue
+			}
+			aenv := fv.loopEnv(fr, st)
+			for k, v := range res {
+				aenv.vars[fmt.Sprintf("result%d", k)] = TV{v, results.At(k).Type()}
+			}
+			if len(res) > 0 {
+				aenv.vars["result"] = TV{res[0], results.At(0).Type()}
+			}
+			g := aenv.evalBool(ca.Expr)
+			fv.oblige(st, fmt.Sprintf("assert #%d (after %s #%d)", i+1, ca.Callee, ca.Ord), g, x.Pos())
+			fv.flushSide(st)
+			st.assume(g)
+		}
 	}
 	return []Outcome{{st: st, results: res}}
 }
@@ -295,11 +318,40 @@ func (fv *FV) frameCheckLoc(st *State, m modLoc, in ssa.Instruction, callee stri
 	switch m.kind {
 	case "cell", "gcell":
 		g = fv.frameAlts(st, m.addr, false, nil, nil)
+		if m.guard != nil {
+			g = Implies(m.guard, g)
+		}
 	case "mem":
 		// an empty window modifies nothing
 		g = Or(fv.idxLe(m.hi, m.lo), fv.frameAlts(st, m.addr, true, m.lo, m.hi))
 	case "fields":
 		g = fv.frameAlts(st, Emb(m.addr, -1), false, nil, nil)
+	case "each":
+		// every target object of the callee must be covered by the caller's frame
+		fv.nfresh++
+		xo := BoundVar(fmt.Sprintf("x!ef%d", fv.nfresh), RefSort)
+		var alts []*Term
+		alts = append(alts, Ge(mk("rootid", IntSort, xo), st.frameWM))
+		for _, c := range st.mods {
+			if c.kind == "each" {
+				covers := true
+				for _, f := range m.fids {
+					has := false
+					for _, g := range c.fids {
+						if g == f {
+							has = true
+						}
+					}
+					if !has {
+						covers = false
+					}
+				}
+				if covers {
+					alts = append(alts, c.cond(xo))
+				}
+			}
+		}
+		g = Forall([]*Term{xo}, Implies(m.cond(xo), Or(alts...)))
 	case "ghost":
 		g = False
 		for _, c := range st.mods {
@@ -530,11 +582,17 @@ func (fv *FV) havocFramed(st *State, locs []modLoc, tag string) {
 	for _, m := range locs {
 		switch m.kind {
 		case "cell", "gcell":
-			cellMods = append(cellMods, Eq(a, m.addr), Eq(par(a), m.addr))
+			if m.guard != nil {
+				cellMods = append(cellMods, And(m.guard, Or(Eq(a, m.addr), Eq(par(a), m.addr))))
+			} else {
+				cellMods = append(cellMods, Eq(a, m.addr), Eq(par(a), m.addr))
+			}
 		case "fields":
 			cellMods = append(cellMods, Eq(par(a), m.addr), Eq(par(par(a)), m.addr), Eq(par(par(par(a))), m.addr))
 		case "mem":
 			memMods = append(memMods, Eq(a, m.addr))
+		case "each":
+			cellMods = append(cellMods, eachTarget(m, a))
 		}
 	}
 	old := Lt(mk("rootid", IntSort, a), wm0)
